@@ -20,12 +20,13 @@ TRUSTED = [
 ]
 ASSUMPTIONS = [
     'npoly = 1 (one-dimensional fits); the x2/npoly>1 path is outside',
-    'distinct breakpoints: zero-width segments (repeated interior knots) make numpy divide 0/0 and are outside',
+    'repeated INTERIOR knots are exercised (explicit breakpoints); a repeated first/last breakpoint (zero padding spacing) is outside',
     'the constructor receives sorted abscissae when everyn is used (as iterfit supplies them); for the other '
     'options only min/max of the data matter and unsorted data are exercised',
     'every-n with nx // everyn >= 2 (a single every-n breakpoint ends at x.max() and cannot cover x.min(): '
     'KnotsProofs.knots_everyn_single; model and code agree on that degenerate case)',
-    'order 1 at an interior knot: the value is convention dependent; the specification accepts either one-sided value',
+    'the one-sided value at a discontinuity is the one of the (t_l, t_{l+1}] convention of the reference implementation '
+    '(C08_eval1_is_spline_left); the statement itself names no convention',
 ]
 
 def translate(ctx):
@@ -77,6 +78,12 @@ def gen_xs(rng, n, style, lo, hi, bits):
     elif style == 'repeated':
         base = [C.dyadic(rng, lo, hi, bits) for _ in range(max(3, n // 3))]
         xs = [rng.choice(base) for _ in range(n)]
+    elif style == 'largeoffset':
+        # offset / spacing up to ~1e8 (e.g. minutes of data on an MJD axis): lo is a large integer, spacing 2^-sp
+        sp = 2.0 ** -rng.randint(4, 10)
+        xs = [lo + i * sp * rng.choice([1, 1, 2]) for i in range(n)]
+        xs = [lo + sp * j for j in sorted(rng.sample(range(0, 4 * n), n))]
+        return xs
     else:  # 'longmantissa': not representable in float32
         xs = [lo + (hi - lo) * rng.random() for _ in range(n)]
     if max(xs) - min(xs) < (hi - lo) / 8.0:
@@ -92,11 +99,21 @@ def gen_call(rng, idx):
     bits = rng.choice([4, 8, 10])
     style = rng.choice(['uniform', 'uniform', 'clustered', 'repeated', 'longmantissa'])
     n = rng.randint(8, 36) if k <= 4 else rng.randint(8, 20)
-    if kind == 'everyn':
+    big = kind in ('nbkpts', 'bkspace', 'everyn') and idx % 7 == 4
+    if big:
+        lo = float(rng.choice([55359, 2 ** 20, 2 ** 24, 2450000]))
+        hi = lo + 1
+        style = 'largeoffset'
+        xs = gen_xs(rng, n, style, lo, hi, bits)
+        if kind != 'everyn' and rng.random() < 0.5:
+            rng.shuffle(xs)
+    elif kind == 'everyn':
         style = rng.choice(['uniform', 'longmantissa'])
         xs = sorted(set(gen_xs(rng, n, style, lo, hi, bits)))
         while len(xs) < 6:
             xs = sorted(set(xs + [C.dyadic(rng, lo, hi, 10)]))
+    elif big:
+        pass
     else:
         xs = gen_xs(rng, n, style, lo, hi, bits)
         if rng.random() < 0.5:
@@ -113,6 +130,10 @@ def gen_call(rng, idx):
             v = sorted(set([xmin - rg / 8] + inner + [xmax + rg / 4]))
         else:            # does not cover: the constructor must move the extreme breakpoints
             v = inner if len(inner) >= 2 else sorted(set([xmin] + inner + [xmax]))
+        if idx % 4 == 2 and len(v) >= 4:
+            # a repeated interior knot (multiplicity 2 .. nord): the spline may be discontinuous there
+            j = rng.randrange(2, len(v) - 1)
+            v = sorted(v + [v[j]] * rng.randint(1, max(1, k - 1)))
         value = v
     elif kind == 'placed':
         nb = rng.randint(0, 8)
